@@ -217,3 +217,95 @@ func c01CommentEndsInBackslash(x *c01Ctx, d *c01Div) bool {
 	})
 	return found
 }
+
+// --- pending here-document body written inside a later construct ---------------
+//
+// Printer defect (any options): the body of a pending here-document is written
+// at the first newline the printer emits. When a LATER part of the same line
+// is a construct that holds a newline of its own (an array or command
+// substitution with a comment or several lines, a command substitution with
+// a here-document), that newline is inside the construct and the body lands
+// there: "a <<E && a=( # c\n1 )\nx\nE\n" prints as "a <<E && a=( # c\n\\\nx\nE\n\t1)".
+// (The parser reads such a body after the line that closes the construct.)
+//
+// Predicate: the output does not parse because of an unclosed here-document;
+// the printed node has a here-document redirect followed later in the source
+// by a comment, another here-document or an array; the same tree with its
+// here-document redirects removed round trips under the same configuration.
+func c01PendingHeredocInsideConstruct(x *c01Ctx, d *c01Div) bool {
+	if d.Kind != "reparse" || !strings.Contains(d.Err, "unclosed here-document") {
+		return false
+	}
+	var first syntax.Pos
+	syntax.Walk(d.Node, func(n syntax.Node) bool {
+		if r, ok := n.(*syntax.Redirect); ok && (r.Op == syntax.Hdoc || r.Op == syntax.DashHdoc) && !first.IsValid() {
+			first = r.Pos()
+		}
+		return true
+	})
+	if !first.IsValid() {
+		return false
+	}
+	later := false
+	syntax.Walk(d.Node, func(n syntax.Node) bool {
+		switch n := n.(type) {
+		case *syntax.Redirect:
+			if (n.Op == syntax.Hdoc || n.Op == syntax.DashHdoc) && n.Pos().After(first) {
+				later = true
+			}
+		case *syntax.Comment:
+			if n.Pos().After(first) {
+				later = true
+			}
+		case *syntax.ArrayExpr:
+			if n.Pos().After(first) {
+				later = true
+			}
+		}
+		return !later
+	})
+	if !later {
+		return false
+	}
+	return x.counterfactual(d, d.Cfg, func(n syntax.Node) {
+		syntax.Walk(n, func(m syntax.Node) bool {
+			if st, ok := m.(*syntax.Stmt); ok {
+				kept := st.Redirs[:0]
+				for _, r := range st.Redirs {
+					if r.Op != syntax.Hdoc && r.Op != syntax.DashHdoc {
+						kept = append(kept, r)
+					}
+				}
+				st.Redirs = kept
+			}
+			return true
+		})
+	})
+}
+
+// --- KeepPadding: the here-document delimiter line is padded -------------------
+//
+// Printer defect (KeepPadding, deprecated option): inside a command
+// substitution that is broken over lines, the closing line of a here-document
+// gets trailing padding ("E               "), so it no longer ends the body.
+//
+// Predicate: KeepPadding; unclosed here-document; the output has a line made
+// of a word followed by spaces; without KeepPadding the same configuration
+// round trips.
+func c01KeepPaddingPadsDelimiter(x *c01Ctx, d *c01Div) bool {
+	if !d.Cfg.KeepPad || d.Kind != "reparse" || !strings.Contains(d.Err, "unclosed here-document") {
+		return false
+	}
+	padded := false
+	for _, l := range strings.Split(d.Out, "\n") {
+		if t := strings.TrimRight(l, " "); t != l && t != "" && !strings.ContainsAny(strings.TrimLeft(t, "\t"), " \t") {
+			padded = true
+		}
+	}
+	if !padded {
+		return false
+	}
+	cfg := d.Cfg
+	cfg.KeepPad = false
+	return x.counterfactual(d, cfg, nil)
+}
